@@ -20,10 +20,12 @@ META = dict(
     text="TLC enumerates every case of the cross-chain UTXO policy pipeline (CrossChainUTXO.tla: freeze/restriction/block "
          "height, transaction class, payload version, referenced address mix) checking the freeze-window and "
          "restricted-spender invariants, and every case is run on the real checkTransactionCrossChainUTXO for every "
-         "instantiable transaction type and four height embeddings; NetConfig.tla enumerates ActiveNet names x local "
+         "instantiable transaction type and four height embeddings, and as signed transfers through the node's "
+         "CheckTransactionContext; NetConfig.tla enumerates ActiveNet names x local "
          "overrides and each case is loaded by the real Settings.SetupConfig from a generated config file.",
     note="Decision table over abstract classes (heights relative to the two thresholds, <= 2-3 references per address class, "
-         "payload versions 0..3 plus larger ones); the call site in DefaultChecker.ContextCheck is not exercised end to end.",
+         "payload versions 0..3 plus larger ones); end to end (BlockChain.CheckTransactionContext on a regnet node) only for "
+         "the cases a signed TransferAsset realises -- withdrawals and deposit returns reach the policy through the export only.",
     technique="TLA+ pipeline model (TLC complete enumeration) + per-case conformance run on the real policy helper and the "
               "real configuration loader",
 )
@@ -56,6 +58,8 @@ def run(chk):
         if pol:
             recs, _ = vf.run_driver(binary, ["policy", ec.write_cases("replay-policy.jsonl", pol)])
             ec.absorb(chk, recs, "replay policy")
+            recs, _ = vf.run_driver(binary, ["e2e", ec.write_cases("replay-policy.jsonl", pol)])
+            ec.absorb(chk, recs, "replay policy end to end")
         if con:
             recs, _ = vf.run_driver(binary, ["config", ec.write_cases("replay-config.jsonl", con)])
             ec.absorb(chk, recs, "replay config")
@@ -68,10 +72,10 @@ def run(chk):
         chk.add_tlc(r, "CrossChainUTXO.tla complete, MaxH=6 MaxRefs=3 versions 0..4, invariants + termination")
 
     # 1b. complete enumeration -> cases -> real helper
-    maxh, refs = (4, 2) if thorough else (3, 2)
-    r = vf.tlc("Policy", "CrossChainUTXO", "x.cfg", cfg_text=cfg(maxh, refs, emit=True), workers=1, timeout=1500)
+    maxh, refs, vers = (5, 3, "0, 1, 2, 3, 4") if thorough else (3, 2, "0, 1, 2, 3")
+    r = vf.tlc("Policy", "CrossChainUTXO", "x.cfg", cfg_text=cfg(maxh, refs, vers, emit=True), workers=1, timeout=1500)
     vf.tlc_ok(r, "CrossChainUTXO extraction")
-    chk.add_tlc(r, "CrossChainUTXO.tla complete, MaxH=%d MaxRefs=%d versions 0..3, one case per initial state" % (maxh, refs))
+    chk.add_tlc(r, "CrossChainUTXO.tla complete, MaxH=%d MaxRefs=%d versions {%s}, one case per initial state" % (maxh, refs, vers))
     cases, st = ec.last_steps(r)
     st["classes"] = {}
     for c in cases:
@@ -81,11 +85,21 @@ def run(chk):
     recs, _ = vf.run_driver(binary, ["policy", ec.write_cases("policy.jsonl", cases)])
     ec.absorb(chk, recs, "policy cases on checkTransactionCrossChainUTXO")
 
+    # 1c. end to end: the cases a signed TransferAsset can realise, through the node's own
+    #     BlockChain.CheckTransactionContext on a regnet node holding cross-chain outputs
+    recs, _ = vf.run_driver(binary, ["e2e", ec.write_cases("policy.jsonl", cases)])
+    ec.absorb(chk, recs, "TransferAsset cases end to end on BlockChain.CheckTransactionContext")
+    bad = json.loads(json.dumps(next(c for c in cases if c["exp"] == "accept" and c["why"] == "before-freeze"
+                                     and c["args"]["kind"] == "other" and c["args"]["nX"] > 0 and c["args"]["ver"] == 0)))
+    bad["exp"], bad["why"] = "reject", "frozen"
+    recs, _ = vf.run_driver(binary, ["e2e", ec.write_cases("e2e-bad.jsonl", [bad])])
+    ec.selftest(chk, "e2e: an accepted transfer declared 'reject'", recs)
+
     # binding self-test: an accepted case declared 'reject' must be reported
     bad = json.loads(json.dumps(next(c for c in cases if c["exp"] == "accept" and c["why"] == "withdraw")))
     bad["exp"] = "reject"
     recs, _ = vf.run_driver(binary, ["policy", ec.write_cases("policy-bad.jsonl", [bad])])
-    chk.selftest("policy: expected verdict of one case flipped to reject", ec.has_violation(recs))
+    ec.selftest(chk, "policy: expected verdict of one case flipped to reject", recs)
 
     # 2. configuration half
     ccases = ec.netconfig_cases(chk)
@@ -94,7 +108,7 @@ def run(chk):
     bad = json.loads(json.dumps(next(c for c in ccases if c["args"]["name"] == "testnet" and c["args"]["ovF"] == "zero")))
     bad["exp"]["F"] = "main"
     recs, _ = vf.run_driver(binary, ["config", ec.write_cases("config-bad.jsonl", [bad])])
-    chk.selftest("config: expected freeze height of a testnet case changed", ec.has_violation(recs))
+    ec.selftest(chk, "config: expected freeze height of a testnet case changed", recs)
 
     chk.cov["exhaustive"] = True
     chk.assumptions += [
@@ -103,10 +117,12 @@ def run(chk):
         "the top of the uint32 range, and both heights MaxUint32 (the disabled setting)",
         "freeze height <= restriction height, which NetConfig.tla shows for every configuration SetupConfig can produce",
         "transaction class 'other' = every type byte core/transaction.GetTransaction instantiates except WithdrawFromSideChain "
-        "and ReturnSideChainDepositCoin; payload version 3 stands for all larger versions (3, 4, 0x7f, 0xff are run)",
+        "and ReturnSideChainDepositCoin; the largest payload version of the spec stands for all larger ones (it is run as itself, +1, 0x7f, 0xff)",
         "a node is 'on mainnet' when SetupConfig selected the mainnet parameter set (the driver checks the resulting magic)",
-        "the helper is driven through its verif export; that ContextCheck calls it for every non-coinbase transaction is read "
-        "from the code, not exercised",
+        "every case runs on the helper through its verif export; the cases of class 'other' with payload version 0 additionally run "
+        "end to end as signed TransferAsset transactions (cross-chain outputs owned by a harness-made 1-of-2 cross-chain script, "
+        "which the signature check accepts for any prefix-X output) through BlockChain.CheckTransactionContext on a regnet node; "
+        "WithdrawFromSideChain / ReturnSideChainDepositCoin are not built end to end (their own context checks are C33's subject)",
         "command-line (screw) overrides are not exercised: SetupConfig is run with withScrew=false",
     ]
     return chk.finish(exhaustive=True)
